@@ -342,6 +342,10 @@ class AbsSolver:
         self.facts = SeqFacts()
         self.s = z3.Solver()
         self.s.set("timeout", timeout_ms)
+        try:
+            self.s.set("smt.mbqi", False)     # quantified facts: E-matching only (a 'sat' is never used anyway)
+        except z3.Z3Exception:
+            pass
         self._nlit = 0
         self.scopes = [[]]    # valid facts added inside each push scope (re-added to the outer scope on pop)
 
@@ -400,24 +404,51 @@ class AbsSolver:
         return r
 
     def enum_values(self, z, maxn):
-        """All values of the int term z consistent with the assertions, or None if more than maxn / undecided."""
+        """All values of the int term z consistent with the quantifier-free part of the assertions (a superset of the
+        really feasible values, which is what a case split needs), or None if more than maxn / undecided."""
         a = self.ab.tr(z)
         for f in self.facts.feed([a]):
             self._fact(f)
         self._flush_lits()
+        s2 = z3.Solver()
+        s2.set("timeout", 3000)
+        for f in self.s.assertions():
+            if not _has_quant(f):
+                s2.add(f)
         vals = []
-        self.s.push()
-        try:
-            while True:
-                r = self.s.check()
-                if r == z3.unsat:
-                    return vals
-                if r != z3.sat or len(vals) >= maxn:
-                    return None
-                val = self.s.model().eval(a, model_completion=True)
-                if not z3.is_int_value(val):
-                    return None
-                vals.append(val.as_long())
-                self.s.add(a != val)
-        finally:
-            self.s.pop()
+        while True:
+            r = s2.check()
+            if r == z3.unsat:
+                return vals
+            if r != z3.sat or len(vals) >= maxn:
+                return None
+            val = s2.model().eval(a, model_completion=True)
+            if not z3.is_int_value(val):
+                return None
+            vals.append(val.as_long())
+            s2.add(a != val)
+
+
+_QC = {}
+
+
+def _has_quant(f):
+    k = f.get_id()
+    r = _QC.get(k)
+    if r is not None and r[0].eq(f):
+        return r[1]
+    stack = [f]
+    seen = set()
+    res = False
+    while stack:
+        u = stack.pop()
+        if u.get_id() in seen:
+            continue
+        seen.add(u.get_id())
+        if z3.is_quantifier(u):
+            res = True
+            break
+        if z3.is_app(u):
+            stack.extend(u.children())
+    _QC[k] = (f, res)
+    return res
